@@ -28,7 +28,7 @@ WORLDS = {
         "C18",
         480,
         43000,
-        [("jit", {}, 0.87), ("nojit", {"NUMBA_DISABLE_JIT": "1"}, 0.13)],
+        [("jit", {}, 0.87, {"workers": 9}), ("nojit", {"NUMBA_DISABLE_JIT": "1"}, 0.13, {"workers": 7})],
     ),
     "ops": ("C02", 1600, 150000, [("default", {}, 1.0)]),
 }
@@ -103,6 +103,8 @@ def run_workers(world, tier, configs, total, base_seed, nworkers, root, wall_cap
         n = max(1, int(round(total * share)))
         if opts.get("fresh_per_session"):
             nw = n
+        elif opts.get("workers"):
+            nw = max(1, min(n, int(round(opts["workers"] * nworkers / 16.0))))
         else:
             nw = max(1, min(nworkers, int(round(nworkers * share))) if len(configs) > 1 else nworkers)
             nw = min(nw, n)
@@ -212,9 +214,11 @@ def merge(results):
     return m
 
 
-def replay_file(path, root, config_env=None, known=False, trace=False):
+def replay_file(path, root, config_env=None, known=False, trace=False, unshrunk=False):
     env = worker_env(root, config_env or {})
     cmd = [PY, "-m", "simkit.worker", "replay", path]
+    if unshrunk:
+        cmd.append("--unshrunk")
     if known:
         cmd.append("--known")
     if trace:
@@ -313,6 +317,25 @@ def main(argv=None):
             and res["violation"]["invariant"] == v["violation"]["invariant"]
             and res["violation"]["step"] == v["violation"]["step"]
         )
+        if not ok and rp.get("plan_unshrunk") is not None:
+            # The minimised plan was found inside a worker that had already run other
+            # sessions; if it needs that process history, fall back to the unshrunk
+            # session, which starts from a fresh interpreter's state.
+            try:
+                rc, res, out, err = replay_file(v["replay"], args.root, cenv, unshrunk=True)
+            except Exception as ex:  # noqa
+                rc, res, out, err = 2, None, "", repr(ex)
+            vu = rp.get("violation_unshrunk") or {}
+            ok = (res is not None and res["violation"] is not None
+                  and res["violation"]["invariant"] == vu.get("invariant"))
+            if ok:
+                rp["plan"], rp["violation"] = rp["plan_unshrunk"], res["violation"]
+                rp["plan_unshrunk"] = None
+                rp["note"] = "not minimised: the minimised plan depended on the worker's process history"
+                rp["trace_digest"] = res["trace_digest"]
+                with open(v["replay"], "w") as f:
+                    json.dump(rp, f, sort_keys=True, indent=1)
+                v["violation"] = res["violation"]
         if ok:
             nviol += 1
             exit_code = 1
